@@ -136,6 +136,7 @@ func (c *Ctx) Load(patterns ...string) {
 			for _, e := range p.Errors {
 				Fatal("type/parse error in %s: %v", p.PkgPath, e)
 			}
+			simplifySyntax(p)
 			lowerRangeInt(p)
 			pinNames(p)
 			normalizeComparisons(p)
@@ -717,3 +718,85 @@ func lowerRangeInt(p *packages.Package) {
 		})
 	}
 }
+
+// simplifySyntax removes two purely notational choices from the syntax trees of a
+// repository package: parentheses that the operator precedences make redundant, and
+// `var x = v` statements (one name, one value, no type), which become `x := v`.
+func simplifySyntax(p *packages.Package) {
+	if p.TypesInfo == nil || simplified[p] {
+		return
+	}
+	simplified[p] = true
+	var un func(e ast.Expr, parent token.Token, right bool) ast.Expr
+	un = func(e ast.Expr, parent token.Token, right bool) ast.Expr {
+		pe, ok := e.(*ast.ParenExpr)
+		if !ok {
+			return e
+		}
+		switch in := pe.X.(type) {
+		case *ast.Ident, *ast.SelectorExpr, *ast.CallExpr, *ast.BasicLit, *ast.IndexExpr, *ast.ParenExpr:
+			return un(pe.X, parent, right)
+		case *ast.BinaryExpr:
+			if parent == token.ILLEGAL {
+				return pe.X // the whole operand of a statement, argument or condition
+			}
+			cp, pp := in.Op.Precedence(), parent.Precedence()
+			if cp > pp || (cp == pp && !right) {
+				return pe.X
+			}
+		}
+		return e
+	}
+	for _, f := range p.Syntax {
+		ast.Inspect(f, func(n ast.Node) bool {
+			switch t := n.(type) {
+			case *ast.BinaryExpr:
+				t.X = un(t.X, t.Op, false)
+				t.Y = un(t.Y, t.Op, true)
+			case *ast.CallExpr:
+				for i := range t.Args {
+					t.Args[i] = un(t.Args[i], token.ILLEGAL, false)
+				}
+			case *ast.AssignStmt:
+				for i := range t.Rhs {
+					t.Rhs[i] = un(t.Rhs[i], token.ILLEGAL, false)
+				}
+			case *ast.ReturnStmt:
+				for i := range t.Results {
+					t.Results[i] = un(t.Results[i], token.ILLEGAL, false)
+				}
+			case *ast.IfStmt:
+				t.Cond = un(t.Cond, token.ILLEGAL, false)
+			case *ast.ForStmt:
+				if t.Cond != nil {
+					t.Cond = un(t.Cond, token.ILLEGAL, false)
+				}
+			case *ast.IndexExpr:
+				t.Index = un(t.Index, token.ILLEGAL, false)
+			case *ast.ValueSpec:
+				for i := range t.Values {
+					t.Values[i] = un(t.Values[i], token.ILLEGAL, false)
+				}
+			case *ast.BlockStmt:
+				for i, st := range t.List {
+					ds, ok := st.(*ast.DeclStmt)
+					if !ok {
+						continue
+					}
+					gd, ok := ds.Decl.(*ast.GenDecl)
+					if !ok || gd.Tok != token.VAR || len(gd.Specs) != 1 {
+						continue
+					}
+					vs, ok := gd.Specs[0].(*ast.ValueSpec)
+					if !ok || vs.Type != nil || len(vs.Names) != 1 || len(vs.Values) != 1 || vs.Names[0].Name == "_" {
+						continue
+					}
+					t.List[i] = &ast.AssignStmt{Lhs: []ast.Expr{vs.Names[0]}, TokPos: vs.Names[0].Pos(), Tok: token.DEFINE, Rhs: []ast.Expr{vs.Values[0]}}
+				}
+			}
+			return true
+		})
+	}
+}
+
+var simplified = map[*packages.Package]bool{}
